@@ -985,6 +985,12 @@ func c18Bind(c *Ctx) {
 				sprintf("%s rewrites the arguments before binding them (it marshals %s, not its arguments parameter): what the handler receives is no longer what the caller sent — e.g. a string that happens to spell JSON arrives as an object, or fails to bind", fname(fn), valueKey(ir.Unwrap(m.Call.Args[0]))))
 		}
 	}
+	if binder == nil && c18BindSplit(c) {
+		c18RawSchemaKept(c)
+		c.R.Min("R-bind", 2)
+		c.R.Min("R-raw-schema", 2)
+		return
+	}
 	if binder == nil {
 		c.R.Break("argument binder (Marshal of the arguments map followed by Unmarshal into the target) not found")
 		return
@@ -1008,7 +1014,13 @@ func c18Bind(c *Ctx) {
 	if n == 0 {
 		c.R.Break("the argument binder has no caller")
 	}
-	// client keeps the schema it received
+	c18RawSchemaKept(c)
+	c.R.Min("R-bind", 2)
+	c.R.Min("R-raw-schema", 2)
+}
+
+// c18RawSchemaKept (R-raw-schema): the client keeps the schema it received.
+func c18RawSchemaKept(c *Ctx) {
 	toolT := c.P.RootNamed("Tool")
 	kept := 0
 	for _, fn := range c.P.LibFns {
@@ -1027,8 +1039,156 @@ func c18Bind(c *Ctx) {
 				sprintf("%s fills Tool.%s from something other than the schema JSON received from the server", fname(fn), f.Name))
 		})
 	}
-	c.R.Min("R-bind", 2)
-	c.R.Min("R-raw-schema", 2)
+}
+
+// c18BindSplit: the binder with either half in a helper of its own — a function with a parameter that is the
+// arguments map, in which bytes that originate (directly, or through a library helper that marshals the map it is
+// handed) from json.Marshal of that very parameter are decoded (directly, or by a library helper that unmarshals the
+// bytes it is handed) with encoding/json's default rules into a target created for the call.
+func c18BindSplit(c *Ctx) bool {
+	isArgsMap := func(t types.Type) bool {
+		m, ok := t.Underlying().(*types.Map)
+		if !ok {
+			return false
+		}
+		_, isIface := m.Elem().Underlying().(*types.Interface)
+		return isIface && ir.TypeStr(m.Key()) == "string"
+	}
+	var marshalOf func(fn *ssa.Function, v ssa.Value, mp ssa.Value, d int) (found, verbatim bool)
+	marshalOf = func(fn *ssa.Function, v ssa.Value, mp ssa.Value, d int) (bool, bool) {
+		oc := originCall(unspill(v))
+		if oc == nil || d > 2 {
+			return false, false
+		}
+		if ir.CallName(oc) == "encoding/json.Marshal" {
+			a := ir.Unwrap(oc.Call.Args[0])
+			return isArgsMap(a.Type()), a == mp
+		}
+		sc := ir.StaticCallee(oc)
+		if sc == nil || !c.P.IsLib(sc) || sc.Blocks == nil {
+			return false, false
+		}
+		var inner ssa.Value
+		for i, a := range oc.Call.Args {
+			if ir.Unwrap(a) == mp && i < len(sc.Params) {
+				inner = sc.Params[i]
+			}
+		}
+		found, verbatim := false, true
+		for _, b := range sc.Blocks {
+			ret, ok := b.Instrs[len(b.Instrs)-1].(*ssa.Return)
+			if !ok || len(ir.Results(ret)) == 0 {
+				continue
+			}
+			r0 := ir.Results(ret)[0]
+			if ir.IsNilConst(r0) {
+				continue
+			}
+			f2, v2 := marshalOf(sc, r0, inner, d+1)
+			if f2 {
+				found = true
+				if !v2 || inner == nil {
+					verbatim = false
+				}
+			}
+		}
+		return found, found && verbatim
+	}
+	// decode sites: (call, bytes operand, target fresh?, options)
+	type decodeSite struct {
+		at    *ssa.Call
+		bytes ssa.Value
+		fresh bool
+		opts  int
+	}
+	decodeSites := func(fn *ssa.Function) []decodeSite {
+		var out []decodeSite
+		ir.EachInstr(fn, func(_ *ssa.BasicBlock, _ int, in ssa.Instruction) {
+			call, ok := in.(*ssa.Call)
+			if !ok {
+				return
+			}
+			switch ir.CallName(call) {
+			case "encoding/json.Unmarshal":
+				_, fresh := ir.Unwrap(call.Call.Args[1]).(*ssa.Alloc)
+				out = append(out, decodeSite{call, call.Call.Args[0], fresh, 0})
+				return
+			}
+			sc := ir.StaticCallee(call)
+			if sc == nil {
+				return
+			}
+			if o := sc.Origin(); o != nil {
+				sc = o // an instantiation of a generic helper: its body is the origin's
+			}
+			if !c.P.IsLib(sc) || sc.Blocks == nil {
+				return
+			}
+			// a helper that unmarshals the bytes it is handed
+			ir.EachInstr(sc, func(_ *ssa.BasicBlock, _ int, hin ssa.Instruction) {
+				hc, ok := hin.(*ssa.Call)
+				if !ok || ir.CallName(hc) != "encoding/json.Unmarshal" {
+					return
+				}
+				for i, p := range sc.Params {
+					if ir.Unwrap(hc.Call.Args[0]) == ssa.Value(p) && i < len(call.Call.Args) {
+						tgt := ir.Unwrap(hc.Call.Args[1])
+						_, fresh := tgt.(*ssa.Alloc)
+						if tp, isParam := tgt.(*ssa.Parameter); isParam {
+							for j, q := range sc.Params {
+								if q == tp && j < len(call.Call.Args) {
+									_, fresh = ir.Unwrap(call.Call.Args[j]).(*ssa.Alloc)
+								}
+							}
+						}
+						opts := 0
+						ir.EachCall(sc, func(oc ssa.CallInstruction) {
+							switch ir.CallName(oc) {
+							case "(*encoding/json.Decoder).UseNumber", "(*encoding/json.Decoder).DisallowUnknownFields":
+								opts++
+							}
+						})
+						out = append(out, decodeSite{call, call.Call.Args[i], fresh, opts})
+					}
+				}
+			})
+		})
+		return out
+	}
+	seen := map[string]bool{}
+	found := false
+	for _, fn := range c.P.LibFns {
+		var mp *ssa.Parameter
+		for _, p := range fn.Params {
+			if isArgsMap(p.Type()) {
+				mp = p
+			}
+		}
+		if mp == nil || fn.Signature.Recv() != nil {
+			continue
+		}
+		for _, ds := range decodeSites(fn) {
+			ok, verbatim := marshalOf(fn, ds.bytes, mp, 0)
+			if !ok {
+				continue
+			}
+			name := ir.FuncCanon(fn)
+			if seen[name] {
+				continue
+			}
+			seen[name] = true
+			found = true
+			c.R.Check(ds.opts == 0, "R-bind", "binder "+name, c.Pos(ds.at.Pos()),
+				"arguments are bound by Marshal(arguments) -> decode with encoding/json's default rules into the target",
+				sprintf("%s does not bind by a plain JSON round trip of the very arguments map into its target (decoder options: %d)", name, ds.opts))
+			c.R.Check(verbatim, "R-bind", "binder "+name+": arguments verbatim", c.Pos(ds.at.Pos()),
+				"the map that is marshalled is the arguments map the caller sent, untouched",
+				sprintf("%s rewrites the arguments before binding them: what the handler receives is no longer what the caller sent", name))
+			c.R.Check(ds.fresh, "R-bind", "bind target in "+name, c.Pos(ds.at.Pos()), "the binding target is created for this call",
+				sprintf("%s binds the arguments into a variable that is not created for this call: json.Unmarshal merges into the previous call's value, and concurrent calls share it", name))
+		}
+	}
+	return found
 }
 
 // ---------------------------------------------------------------- R-fresh-schema
